@@ -1623,7 +1623,7 @@ def run(tier: str, replay: str | None = None):
         rep.violation(payload(i, {"kind": "broken-correspondence", "correspondence": f"Narrow.Model.narrow/boolab_of vs constrain_value/annotate_code/get_boolability [{what}]",
                                   "observed": iv, "model": mv, "mismatches": len(corr)}), no_failing_input=True)
     if broken_translation and not found_input:
-        rep.violation({"kind": "broken-obligation", "theorem": "Gen/NarrowTable.v (translator)", "detail": broken_translation}, no_failing_input=True)
+        rep.violation({"kind": "broken-obligation", "theorem": "Gen/NarrowTable.v / Gen/NarrowPreds.v (translators)", "detail": broken_translation}, no_failing_input=True)
     if proof is not None and not proof.ok and not found_input:
         rep.violation({"kind": "broken-obligation", "theorem": "; ".join(proof.broken), "log": proof.log[-1500:]}, no_failing_input=True)
     if spec_mismatch:
